@@ -140,6 +140,10 @@ func (s *Sim) admittedApps(user, path string, only map[string]bool) int {
 		if !a.Admitted || (user != "" && a.User != user) || (only != nil && !only[id]) {
 			continue
 		}
+		// an application the core has reported as terminated no longer runs, whatever the shim still has to confirm
+		if n := len(a.States); n > 0 && terminalState(a.States[n-1]) {
+			continue
+		}
 		q := s.appQueue(id)
 		if q == path || strings.HasPrefix(q, path+".") {
 			n++
